@@ -55,6 +55,8 @@ def batches(ctx):
 
 
 def run(ctx):
+    if pkvlib.ONLY:
+        ctx.note("restricted development run: PKV_ONLY=%s" % ",".join(pkvlib.ONLY))
     binary = ctx.gobuild("c09")
     ctx.specfile("x")
 
@@ -88,9 +90,9 @@ def run(ctx):
             return judge_obs(ctx, out, "random #%d" % k)
         return job
 
-    jobs = [pipeline(k, label, subst) for k, (label, subst) in enumerate(batches(ctx))]
+    jobs = [pipeline(k, label, subst) for k, (label, subst) in enumerate(batches(ctx)) if pkvlib.selected(label)]
     nrec = [(0, 2500)] if ctx.quick else [(k, 10000) for k in range(8)]
-    jobs += [record_job(k, n) for k, n in nrec]
+    jobs += [record_job(k, n) for k, n in nrec if pkvlib.selected("random")]
     results = pkvlib.par(ctx, jobs)
     gens = [r for r in results if "paths" in r]
     recs = [r for r in results if "paths" not in r]
@@ -111,7 +113,7 @@ def run(ctx):
             ctx.cov["by_rule"][pth] = ctx.cov["by_rule"].get(pth, 0) + c
         if r["sample"]:
             ctx.add_samples([r["sample"]], n=1)
-    if paths != {"ip", "ip-bracketed", "dns-san", "common-name"}:
+    if paths != {"ip", "ip-bracketed", "dns-san", "common-name"} and not pkvlib.ONLY:
         raise Machinery("vacuous: only the rules %s were exercised" % sorted(paths))
     if dropped:
         ctx.note("%d generated cases dropped (not judged): the specification's IP-literal grammar and net.ParseIP "
